@@ -159,7 +159,7 @@ func sfBody(cfg sfCfg) (*sfRun, func()) {
 								}
 								x.panicked = true
 								x.err = firstLine(fmt.Sprint(rec))
-								if !strings.Contains(x.err, "fn panic") {
+								if !strings.Contains(x.err, "fn panic") && !strings.Contains(x.err, "nil") {
 									panic(rec)
 								}
 							} else {
@@ -192,6 +192,10 @@ func sfBody(cfg sfCfg) (*sfRun, func()) {
 								return 0, errors.New("fn failed")
 							case "panic":
 								panic("fn panic")
+							case "panicnil":
+								// panic(nil): with the semantics before Go 1.21 (in force for a main module that declares
+								// go < 1.21, as this repository's go.mod does) recover() returns nil for it
+								panic(nil)
 							case "exit":
 								runtime.Goexit()
 							}
@@ -269,7 +273,7 @@ func sfCheck(res *vh.Result, cfg sfCfg) func(r *sfRun, x *vrt.Sched, cost int) {
 					ok = ok || (y.err == "" && !y.panicked && !y.exited && y.val == c.val)
 				case "err":
 					ok = ok || (y.err == "fn failed" && !y.panicked && !y.exited)
-				case "panic":
+				case "panic", "panicnil":
 					ok = ok || y.panicked
 				case "exit":
 					ok = ok || y.exited
@@ -314,6 +318,8 @@ func sfCfgs() []sfCfg {
 		{name: "err-late", plan: []string{"err", "ok"}, scripts: [][]int{{1, 1}, {1}}},
 		{name: "panic-2", plan: []string{"panic", "ok"}, scripts: [][]int{{1}, {1, 1}}},
 		{name: "exit-2", plan: []string{"exit", "ok"}, scripts: [][]int{{1}, {1, 1}}},
+		{name: "panicnil-2", plan: []string{"panicnil", "ok"}, scripts: [][]int{{1}, {1, 1}}},
+		{name: "err-then-panicnil", plan: []string{"err", "panicnil", "ok"}, scripts: [][]int{{1, 1}, {1}}},
 		{name: "forget-err-3", forget: true, plan: []string{"err", "ok", "ok"}, scripts: [][]int{{1}, {1}, {1}}},
 		{name: "forget-panic-3", forget: true, plan: []string{"panic", "ok", "ok"}, scripts: [][]int{{1}, {1}, {1}}},
 		{name: "reuse-2keys", plan: []string{"ok", "ok", "ok"}, scripts: [][]int{{1, 2}, {1, 2}}},
@@ -419,7 +425,7 @@ func c13Check(res *vh.Result, cfg *icCfg) func(r *icRun, x *vrt.Sched, cost int)
 					ok = ok || (c.OK && c.Got == l.V)
 				case "err":
 					ok = ok || (!c.OK && c.Err == errLoad.Error())
-				case "panic":
+				case "panic", "panicnil":
 					ok = ok || c.Panicked
 				case "exit":
 					ok = ok || c.Exited
@@ -511,6 +517,7 @@ func c13Drivers() []*icCfg {
 	return []*icCfg{
 		{Name: "F1-three-callers", O: big, Loading: true, LoadCost: 2, LoadTTL: 60 * sec, Scripts: [][]icOp{{L(1)}, {L(1)}, {L(1)}}, Post: epi},
 		{Name: "F2-error", O: big, Loading: true, LoadCost: 1, LoadPlan: []string{"err"}, Scripts: [][]icOp{{L(1), L(1)}, {L(1)}}, Post: epi},
+		{Name: "F3n-panic-nil", O: big, Loading: true, LoadCost: 1, LoadPlan: []string{"panicnil"}, Scripts: [][]icOp{{L(1)}, {L(1)}, {S(2)}}, Post: epi},
 		{Name: "F3-panic", O: big, Loading: true, LoadCost: 1, LoadPlan: []string{"panic"}, Scripts: [][]icOp{{L(1)}, {L(1)}, {S(2)}}, Post: epi},
 		{Name: "F4-goexit", O: big, Loading: true, LoadCost: 1, LoadPlan: []string{"exit"}, Scripts: [][]icOp{{L(1)}, {L(1)}, {S(2)}}, Post: epi},
 		{Name: "F5-with-writers", O: big, Loading: true, LoadCost: 1, Scripts: [][]icOp{{L(1)}, {L(1)}, {S(1), D(1)}}, Post: epi},
